@@ -95,6 +95,23 @@ func HarnessC14L3() {
 		return
 	}
 	zzvrt.Check("C14.L3.document-with-all-keys-accepted", accepted)
+	zzvrt.Check("C04.L3.present-key-satisfies-required-whatever-it-is-called", accepted)
+	// the same keys with ONE of them missing (its look-alikes may be there): rejected
+	gone := zzvrt.Choice(len(names))
+	d3 := zzvrt.NewDoc()
+	zzTypeCorrectObject(d3)
+	for k, n := range names {
+		if k == gone {
+			zzvrt.Assume(zzvrt.DIs(d3, n, zzvrt.KAbsent))
+		} else {
+			zzvrt.Assume(zzvrt.And(zzvrt.DIs(d3, n, zzvrt.KNumber), zzvrt.DIsInt(d3, n)))
+		}
+	}
+	_, accepted3, ok := zzRunT("C14.L3", h, g.getRootTypeName(sch, "root.json"), "json", d3)
+	if !ok {
+		return
+	}
+	zzvrt.Check("C04.L3.missing-required-key-rejected-whatever-it-is-called", !accepted3)
 	// binding: the same keys with ONE of them carrying a string instead: rejected, whichever key
 	// it is (every key is bound to its own typed field)
 	bad := zzvrt.Choice(len(names))
